@@ -50,7 +50,10 @@ THEOREMS = [
 LEVEL_TEXT = ("Lean theorems: (1) default propagator with the sgp4 package as a parameter: for every library, TLE text and date the wrapper returns 1000 x the "
               "library's result on the original lines and the UTC calendar tuple of the instant (given C12's parse/write identity as hypothesis); the tuple "
               "(CPython's ord2ymd, modelled branch for branch) is a valid civil date that denotes the instant exactly for every date from year 1, and the "
-              "library's own Julian-day formula reads it back correctly for 1901-2099; exact correspondence of the arguments really handed to the library. "
+              "library's own Julian-day formula reads it back correctly for 1901-2099; exact correspondence of the arguments really handed to the library; "
+              "the binding logic (orbit setter, _state, _bound_to) as a state machine over a MUTABLE orbit: after any history of in-place edits and propagations the reply is "
+              "that of a fresh propagator on the values the orbit holds now (history_reply_eq_fresh), the statements of Sgp4 being read from the AST (any other shape or member "
+              "is refused) and 'every input Tle.from_orbit reads is a label or is covered by the key _state compares' decided on sets regenerated from sgp4.py and tle.py. "
               "(2) native Sgp4Beta translated from its Python AST on every run, cut into 12 pieces: orthonormal frame, Kepler loop exit => Newton correction "
               "< 1e-12 for every fuel, WGS-72 constants, a0 = (k_e/n0'')^(2/3). (3) native model = reference theory over R, piece by piece, against a "
               "hand-written transcription of python-sgp4's _initl/sgp4init/sgp4 near-Earth path (templates/Sgp4Ref.tpl) that is itself compared with the "
@@ -72,7 +75,9 @@ TRUSTED = [
     "(date handling, object construction) and any other statement makes the extraction fail",
     "lean/templates/Sgp4Ref.tpl (hand-written transcription of sgp4/propagation.py: _initl, sgp4init, sgp4 for method 'n'), tied to the installed package by the correspondence run "
     "(24 satellite-record fields incl. isimp and the deep-space switch, mean elements am em om Om mm after a call, state; rtol 1e-9)",
-    "lean/BeyondVerif/Model/Sgp4Wrap.lean (hand-written: CPython ord2ymd, strftime fields, wrapper control flow), tied by the exact correspondence run (arguments intercepted between beyond and the sgp4 package, stub and real library)",
+    "harness/props/C07.py gen_wrap_bind: compares the statement lists of Sgp4.orbit (getter, setter) and Sgp4.propagate with the modelled ones (exact, via ast.unparse), refuses further members, "
+    "reads the key of Sgp4._state and the read-set of Tle.from_orbit into Generated/Sgp4WrapBind.lean",
+    "lean/BeyondVerif/Model/Sgp4Wrap.lean (hand-written: CPython ord2ymd, strftime fields, wrapper control flow, binding state machine), tied by the exact correspondence run (arguments intercepted between beyond and the sgp4 package, stub and real library)",
     "the third-party package sgp4 2.27 (twoline2rv, Satellite.propagate, sgp4.propagation.sgp4) as the reference implementation of Vallado's SGP4/SDP4, WGS-72",
     "CPython: datetime arithmetic, strftime, float(decimal text) correctly rounded (checked equal to Lean's Float.ofScientific on every sampled value); sys.settrace line events (branch distribution in the evidence only)",
     "numpy / libm double arithmetic vs R: tolerance 1e-9 relative",
@@ -94,7 +99,9 @@ NOT_COVERED = [
     "the SGP4/SDP4 theory itself (inside the library parameter `lib`), including deep-space resonance and lunar-solar terms and the reference's simplified drag model below 220 km (the native model has no such switch; outside the clause)",
     "objects whose drag polynomial changes the semi-major axis by more than 2 % (oracle) / 20 % (correspondences) within the interval are excluded from the native comparisons (tallied)",
     "the compositions sgp4Prop / refSgp4 (which output of one piece is handed to the next) are generated / hand-written plumbing: tied by the correspondences, composed in a theorem only for the initialisation (beta_init_reference)",
-    "Sgp4 re-binding after an in-place modification of the orbit (sgp4.py `_state != _bound_to`): not an orbit 'built from a TLE'; the branch is recorded (never taken) in the evidence",
+    "history_reply_eq_fresh takes 'the compared key determines the library's answer for the regenerated text' as hypothesis: its syntactic side is bind_key_covers_regen (read-sets from the AST), "
+    "that label fields do not move the state and that Tle.from_orbit / StateVector attribute writes behave as read is the history oracle's (sources x edited inputs x propagations, expected = python-sgp4 on "
+    "lines the harness writes from the current values); unpickled orbits: open finding C07-unpickled-orbit-frame-identity",
     "double rounding of the seconds field beyond 'within 2^-48 s' (time_resolution takes the half-microsecond bound as hypothesis)",
 ]
 OPEN = [
@@ -107,7 +114,9 @@ RULE = ("correspondence: (a) 700/20000 edge datetimes 1957-2056 x 5 labels throu
         "(one TLE per FEATURE: every guard of sgp4beta.py and of the reference's sgp4init from both sides at field resolution, every exact field boundary) + 500/12000 catalogue-like TLEs x 2 dates: "
         "Sgp4Beta init values and state vs the compiled Lean translation, rtol 1e-9; both sides of every guard of the current source must have been taken (guards read from the AST, taken side "
         "observed by a line tracer on the real code) or the correspondence fails; (d) the same streams: reference spec vs python-sgp4 (record fields, mean elements, state), rtol 1e-9. "
-        "non-trivial = offset != 0; distinct = distinct request. oracle: pinned corpus, 4/24 rounds of the directed generator, 220/2500 catalogue-like TLEs: default propagator vs sgp4 called directly on the "
+        "(e) 240/1920 histories (12 ways of obtaining the orbit x 15 edited inputs singly, then combinations; before/after a first propagation; edit back) on real Orbit/Sgp4 objects with "
+        "twoline2rv intercepted, against the Lean state machine: the setter runs exactly when the model says and the lines handed over are those the harness writes from the values of the version the model names. "
+        "non-trivial = offset != 0; distinct = distinct request. oracle: the same histories end to end (state vs python-sgp4 on harness-written lines of the current values, |v| x 50 us), pinned corpus, 4/24 rounds of the directed generator, 220/2500 catalogue-like TLEs: default propagator vs sgp4 called directly on the "
         "original lines and independently computed UTC fields (|v| x 50 us), timedelta argument, label independence (UTC/TAI/TT/GPS/UT1), 3-line TLEs, native vs reference theory 1 cm in the full "
         "near-Earth domain; branch distribution of the native code, the wrapper and the reference record in the evidence (keys branch*)")
 
@@ -1110,7 +1119,11 @@ def history_key(orb):
     """`Sgp4._state(orbit)` as read from the source (the list `stateKeyReads` of Generated/Sgp4WrapBind.lean), evaluated by the harness"""
     if not _key_reads:
         import re
-        _key_reads.extend(re.findall(r'"([^"]+)"', gen_wrap_bind().split("def stateKeyReads")[1].split("\n")[0]))
+        try:
+            _key_reads.extend(re.findall(r'"([^"]+)"', gen_wrap_bind().split("def stateKeyReads")[1].split("\n")[0]))
+        except py2lean.Untranslatable:
+            # the extractor refused the current sgp4.py (reported by extract); the last modelled key is used to drive the comparison
+            _key_reads.extend(["tobytes", "date", "form", "frame", "bstar", "ndot", "ndotdot"])
     return tuple(orb.tobytes() if r == "tobytes" else str(getattr(orb, r)) if r in ("date", "form", "frame") else repr(orb._data.get(r)) for r in _key_reads)
 
 
@@ -1213,7 +1226,12 @@ def check_history(out, h, classify=True):
     inp = {"history": h}
 
     def on_propagate(orb, cur, off, target, date, stage):
-        sat = reference(*cur)
+        try:
+            sat = reference(*cur)
+        except Exception:
+            # the values the orbit holds cannot be written as a TLE (eccentricity outside [0, 1) after a conversion …): no reference value
+            out.tally("wrapper-history=current-values-not-a-TLE-skipped")
+            return
         exp = ref_state(sat, target)
         edited = sorted(set(f for fs in h["edits"] for f in fs)) if stage != "first" else []
         out.count(key=(tuple(h["lines"]), h["source"], tuple(edited), stage, off), kind="wrapper-history", source=h["source"], stage=stage, first=h["first_propagation"],
@@ -1752,7 +1770,9 @@ def binding_cases(ctx, out):
             except Exception:
                 same = lines is not None and list(lines) == list(want)
             if not same:
-                numeric = lines is None or record_of(lines)[1:] != record_of(want)[1:]
+                # what moves the state: epoch, B*, the six elements (not the catalogue number, not ndot — SGP4 does not read it)
+                moves = [k for k, f in enumerate(REC_FIELDS) if f not in ("satnum", "ndot")]
+                numeric = lines is None or [record_of(lines)[k] for k in moves] != [record_of(want)[k] for k in moves]
                 out.fail(history_family(h, stage) + ":lines", "the lines handed to twoline2rv are not those of the values the orbit holds (version named by the model)",
                          {"history": h, "stage": stage}, observed=list(lines) if lines else None, expected=list(want), violates_property=bool(numeric))
                 break
